@@ -112,10 +112,15 @@ def truncation_cases(seed, nbase):
 
 
 def _shard(a):
-    exe, seed, tier, n, leak, ntrunc = a
+    exe, seed, tier, n, leak, ntrunc = a[:6]
+    httpsfirst = a[6] if len(a) > 6 else False
     cases = gen(seed, tier, n) + truncation_cases(seed, ntrunc)
-    r = core.line_shard(exe, cases, judge=judge, args=(['leakcheck'] if leak else []), timeout=1800)
+    r = core.line_shard(exe, cases, judge=judge,
+                        args=(['leakcheck'] if leak else []) + (['httpsfirst'] if httpsfirst else []), timeout=1800)
     st = {}
+    if httpsfirst:
+        st['requests_after_a_https_request_in_the_same_process'] = len(cases)
+    st['connection_socket_is_descriptor_0'] = sum(1 for c in cases if ((int(c['line'].split()[4]) >> 7) % 4) == 0)
     for c in cases:
         k = 'mut_' + c['meta']['mutation']
         st[k] = st.get(k, 0) + 1
@@ -135,7 +140,7 @@ def run(ctx):
     for mode in (0, 1):
         exe = build(ctx, bool(mode))
         for i in range(core.NCPU):
-            jobs.append((exe, seeds[mode * core.NCPU + i], ctx.tier, per, bool(mode), ctx.n(3, 60)))
+            jobs.append((exe, seeds[mode * core.NCPU + i], ctx.tier, per, bool(mode), ctx.n(3, 60), i % 2 == 1))
     res = core.pmap(_shard, jobs)
     core.merge(ctx, res)
     for r in res[:3]:
